@@ -5,6 +5,7 @@ from sa.dataflow import cmp_key, cmp_atoms
 from sa.resolve import walk_function
 from rules.common import allocation_filters, sub_returns_allocation
 
+TECHNIQUE = 'static analysis (ast): comparator normal form of the threshold test (strict, conjunction with target membership) on value ids, reaching-definition flow of the traded quantity (truncation family, zero skip on every path to Trade), plumbing of margin / fractional from the space to the request'
 EXPLANATION = (
     "Decides the structural clauses of C12 in Rebalancing.make_trades: (S1) the only skip conditions inside the trade loop are "
     "`abs(imbalance weight) < margin and contract in <target allocation>` (strict, conjunction) and the sub-lot skip; the Trade is built "
